@@ -173,6 +173,10 @@ static void print_ex(flatcc_json_printer_t *ctx, const char *s, size_t n)
     }
     k = (size_t)(ctx->pflush - ctx->p);
     while (n > k) {
+        if (k == 0) {
+            /* Flushing made no room (a fixed buffer no larger than the reserve): overflow has been raised. */
+            return;
+        }
         memcpy(ctx->p, s, k);
         ctx->p += k;
         s += k;
@@ -336,6 +340,10 @@ static void print_indent_ex(flatcc_json_printer_t *ctx, size_t n)
     }
     k = (size_t)(ctx->pflush - ctx->p);
     while (n > k) {
+        if (k == 0) {
+            /* Flushing made no room (a fixed buffer no larger than the reserve): overflow has been raised. */
+            return;
+        }
         memset(ctx->p, ' ', k);
         ctx->p += k;
         n -= k;
